@@ -386,3 +386,57 @@ def nth_rule(ctx, rep, rid="NTH"):
                 rep.ok(rid, "%s  [%s]" % (b.name, ent[1][:100]))
     if n < 2:
         raise MissingAnchor("NTH: expected the positional operand accesses of the validators, found %d" % n)
+
+
+# -------------------------------------------------------------------------------------------------
+# INITSIB: analysis-map entries for one key are created together (gated zone; feeds the unconditional Index reads)
+# -------------------------------------------------------------------------------------------------
+def _strip_loc(e):
+    if not isinstance(e, tuple):
+        return e
+    if e and e[0] == "call":
+        return ("call", e[1], tuple(_strip_loc(a) for a in e[2]), e[3], "")
+    return tuple(_strip_loc(x) for x in e)
+
+
+def initsib_rule(ctx, rep, rid="INITSIB"):
+    rep.rule(rid, "SIBLINGS: inside one function of the semantic pass, `entry(k)` initialisations of different analysis maps with the same key "
+                  "expression are control-equivalent (each dominates or post-dominates the other): the validators later read these maps with the "
+                  "panicking Index for every key of the family, so an entry that is created under an extra condition is missing for some "
+                  "error-free grammar and the analysis panics")
+    lib = ctx.lelwel()
+    n = 0
+    for b in lrules.user_bodies(lib):
+        if not b.name.startswith("frontend::sema::"):
+            continue
+        groups = defaultdict(list)
+        for pt, name, decl, args, t in calls(b):
+            if name.endswith("HashMap::entry") or name.endswith("BTreeMap::entry"):
+                fields = [x[3] for x in walk(args[0]) if x[0] == "field"]
+                if not fields:
+                    continue
+                groups[_strip_loc(args[1])].append((pt, fields[-1]))
+        for key, lst in groups.items():
+            if len({m for _, m in lst}) < 2:
+                continue
+            n += 1
+            base = lst[0]
+            bad = None
+            for pt, m in lst[1:]:
+                if m == base[1]:
+                    continue
+                a, c2 = base[0][0], pt[0]
+                eq = (b.dominates(a, c2) and b.postdominates(c2, a)) or (b.dominates(c2, a) and b.postdominates(a, c2)) or a == c2
+                if not eq:
+                    bad = (pt, m)
+            fn = b.name.split("frontend::sema::")[-1]
+            if bad:
+                rep.violation(rid, "%s|%s|%s" % (fn, base[1], bad[1]), "%s: the entries of `%s` and `%s` for the same key (%s) are not created under the same "
+                              "condition; the maps are read with `[..]` for every such key behind the error gate, so for some error-free grammar the "
+                              "key is missing and the analysis panics" % (fn, base[1], bad[1], show(key, 90)),
+                              site(b, bad[0]))
+            else:
+                rep.ok(rid, "%s: entries of %s for one key are created together" % (fn, sorted({m for _, m in lst})))
+    rep.count("sibling initialisation groups", n)
+    if n < 1:
+        raise MissingAnchor("INITSIB: no sibling map initialisations found in frontend::sema")
